@@ -1,11 +1,11 @@
-\* generation: every transition over the scripted tree T3 with one observer and one restart, printed once
+\* generation: every transition of the full protocol with 3 correct producers (= 3 nodes), 3 blocks, 1 restart
 SPECIFICATION Spec
 CONSTANTS
   N = 3
   Byz <- NoByz
-  Nodes <- Obs1
-  Blk0 <- T3
-  MaxBlocks = 9
+  Nodes <- Nodes3
+  Blk0 <- NoBlocks
+  MaxBlocks = 3
   MaxRestarts = 1
   ByzMode = "branch"
   ByzRanges <- R123
